@@ -213,32 +213,84 @@ def isUnion : HS → Bool
   | .bin .union .. => true
   | _ => false
 
-/-- The state `HalfSpace._update_values` establishes: every HalfSpace has its node; keys are in the created
-    order; leaf tokens spell the divider; paddings hold only separators and the operator's own symbol; links carry
-    parentheses where MCNP's precedence needs them; a left operand does not end inside a comment; two numerals
-    are never adjacent. -/
-def ready : HS → Bool
+/-- `gen true` is the state `HalfSpace._update_values` establishes (`ready`): every HalfSpace has its node; keys
+    are in the created order; leaf tokens spell the divider; paddings hold only separators and the operator's own
+    symbol; links carry parentheses where MCNP's precedence needs them; a left operand does not end inside a
+    comment; two numerals are never adjacent.  `gen false` (`linked`) is the same without the last clause: the
+    state after `_ensure_has_nodes`, before `_update_node` has put a blank where one is needed. -/
+def gen (b : Bool) : HS → Bool
   | .unit d s false (some v) => tokVal v.tok == some (!s, d) && isSep false (optFmt v.pad)
   | .unit _ _ _ _ => false
   | .compl (.unit d _ true (some v)) (some g) =>
       orderOK g [.operator, .left] && complOpr g.opr.format && allBare g.lchain &&
       cellVal v.tok == some d && isSep false (optFmt v.pad) &&
-      isSep (cmtAfter false (optFmt v.pad)) (optFmt g.ep)
+      isSep false (optFmt g.ep)
   | .compl l (some g) =>
-      ready l && orderOK g [.operator, .left] && complOpr g.opr.format && headParens g.lchain &&
-      chainOK g.lchain l.fmt && isSep (cmtAfter false (wrapFmt g.lchain l.fmt)) (optFmt g.ep)
+      gen b l && orderOK g [.operator, .left] && complOpr g.opr.format && headParens g.lchain &&
+      chainOK g.lchain l.fmt && isSep false (optFmt g.ep)
   | .compl _ none => false
   | .bin o l r (some g) =>
-      ready l && ready r && orderOK g [.left, .operator, .right] &&
+      gen b l && gen b r && orderOK g [.left, .operator, .right] &&
       chainOK g.lchain l.fmt && chainOK g.rchain r.fmt &&
       !cmtAfter false (wrapFmt g.lchain l.fmt) &&
       (match o with
         | .inter =>
             isSep false g.opr.format && !cmtAfter false g.opr.format &&
-            (!g.opr.format.isEmpty || headParens g.lchain || headParens g.rchain) &&
+            (!b || !g.opr.format.isEmpty || headParens g.lchain || headParens g.rchain) &&
             (!isUnion l || headParens g.lchain) && (!isUnion r || headParens g.rchain)
         | .union => unionOpr g.opr.format) &&
-      isSep (cmtAfter false (wrapFmt g.rchain r.fmt)) (optFmt g.ep)
+      isSep false (optFmt g.ep)
   | .bin _ _ _ none => false
+
+/-- the state `_update_values` establishes -/
+def ready (h : HS) : Bool := gen true h
+/-- the state `_ensure_has_nodes` establishes -/
+def linked (h : HS) : Bool := gen false h
+
+/-- the paddings of a chain, without reference to the text it encloses -/
+def chainPads : List Wrap → Bool
+  | [] => true
+  | w :: ws =>
+      (match wrapKind w with
+        | .bare => true
+        | .parens s e => isSep false s && !cmtAfter false s && isSep false e
+        | .bad => false) && chainPads ws
+
+/-- what the operator padding of a node that exists must look like -/
+def oprOK (o : BOp) (cs : List GCh) : Bool :=
+  match o with
+  | .inter => isSep false cs && !cmtAfter false cs
+  | .union => unionOpr cs
+
+/-- **HS.WF**: well-formedness of a HalfSpace tree *before* `_update_values`: a cell leaf occurs only directly
+    under a complement; a HalfSpace may or may not have its syntax node yet; where a node exists (it was read, or
+    made by an earlier write) its leaf token spells the divider, its keys are in the created order, its paddings hold
+    separators and comments plus the operator's own symbol, and the parentheses of its links are "(" / ")" with
+    separators.  Nothing is asked of the links themselves: whether they still enclose the current child, carry the
+    parentheses precedence needs, or end in a comment. -/
+def wf : HS → Bool
+  | .unit _ _ false none => true
+  | .unit d s false (some v) => tokVal v.tok == some (!s, d) && isSep false (optFmt v.pad)
+  | .unit _ _ true _ => false
+  | .compl (.unit d _ true vn) gn =>
+      (match vn with
+        | none => true
+        | some v => cellVal v.tok == some d && isSep false (optFmt v.pad)) &&
+      (match gn with
+        | none => true
+        | some g => orderOK g [.operator, .left] && complOpr g.opr.format && allBare g.lchain &&
+            isSep false (optFmt g.ep))
+  | .compl l gn =>
+      wf l &&
+      (match gn with
+        | none => true
+        | some g => orderOK g [.operator, .left] && complOpr g.opr.format && chainPads g.lchain &&
+            isSep false (optFmt g.ep))
+  | .bin o l r gn =>
+      wf l && wf r &&
+      (match gn with
+        | none => true
+        | some g => orderOK g [.left, .operator, .right] && chainPads g.lchain && chainPads g.rchain &&
+            oprOK o g.opr.format && isSep false (optFmt g.ep))
 
 end MontePyVerif.C02
